@@ -173,6 +173,44 @@ theorem GEN_file_out_of_range_refused (fs : Gen.Fs) (doc : List (String × Strin
     C16.C16_out_of_range_refused _ _ _ doc hnd k v hmem hout]
   rfl
 
+/-- `GEN_file_effective_is_written` for key scalars in any string spelling: the setting is written once under a key
+    scalar `kq` that RESOLVES to the setting's name (so `"batch_size": 7` counts), no two entries resolve to one key -/
+theorem GEN_file_effective_is_written_resolved (fs : Gen.Fs) (doc : List (String × String)) (ncpu : Nat) (path : String)
+    (rk : String → String) (hkeys : ∀ kv ∈ doc, yamlStr kv.1 = some (rk kv.1))
+    (hnd : (doc.map fun kv => rk kv.1).Nodup) (k : IntKey) (v : Int) (kq : String) (hkq : rk kq = k.name)
+    (hmem : (kq, showInt v) ∈ doc) (c : Cfg) (h : genStartFile fs doc ncpu path = some c) :
+    c.get k = some v.toNat ∧ 0 ≤ v := by
+  have hne : doc ≠ [] := List.ne_nil_of_mem hmem
+  rw [GEN_start_file_resolved fs doc ncpu path hne rk hkeys] at h
+  obtain ⟨c', hc', rfl⟩ := Option.map_eq_some_iff.mp h
+  rw [get_eraseKms]
+  have hnd' : ((doc.map fun kv => (rk kv.1, kv.2)).map (·.1)).Nodup := by
+    rw [List.map_map]; exact hnd
+  have hmem' : (k.name, showInt v) ∈ doc.map fun kv => (rk kv.1, kv.2) :=
+    List.mem_map.mpr ⟨(kq, showInt v), hmem, by simp only [hkq]⟩
+  exact C16.C16_effective_is_written _ _ _ _ hnd' k v hmem' c' hc'
+
+/-- `GEN_file_out_of_range_refused` for key scalars in any string spelling -/
+theorem GEN_file_out_of_range_refused_resolved (fs : Gen.Fs) (doc : List (String × String)) (ncpu : Nat) (path : String)
+    (rk : String → String) (hkeys : ∀ kv ∈ doc, yamlStr kv.1 = some (rk kv.1))
+    (hnd : (doc.map fun kv => rk kv.1).Nodup) (k : IntKey) (v : Int) (kq : String) (hkq : rk kq = k.name)
+    (hmem : (kq, showInt v) ∈ doc) (hout : ¬ k.documented v) :
+    genStartFile fs doc ncpu path = none := by
+  have hne : doc ≠ [] := List.ne_nil_of_mem hmem
+  have hnd' : ((doc.map fun kv => (rk kv.1, kv.2)).map (·.1)).Nodup := by
+    rw [List.map_map]; exact hnd
+  have hmem' : (k.name, showInt v) ∈ doc.map fun kv => (rk kv.1, kv.2) :=
+    List.mem_map.mpr ⟨(kq, showInt v), hmem, by simp only [hkq]⟩
+  rw [GEN_start_file_resolved fs doc ncpu path hne rk hkeys,
+    C16.C16_out_of_range_refused _ _ _ _ hnd' k v hmem' hout]
+  rfl
+
+/-- non-vacuity of the resolved form: a quoted `"batch_size"` key with the out-of-range value 0 -/
+example (fs : Gen.Fs) : genStartFile fs [("\"batch_size\"", showInt 0)] 1 "" = none :=
+  GEN_file_out_of_range_refused_resolved fs _ 1 "" (fun _ => "batch_size")
+    (by intro kv h; rw [List.mem_singleton.mp h]; decide) (by simp) .batchSize 0 "\"batch_size\"" rfl
+    (List.mem_singleton.mpr rfl) (by simp [IntKey.documented])
+
 /-- C16 "a missing required setting ⇒ start-up fails", for the translated environment loader + validator -/
 theorem GEN_env_missing_required (fs : Gen.Fs) (env : List (String × String)) (ncpu : Nat)
     (hq : ∀ kv ∈ entriesOfEnv env, unquote kv.2 = kv.2)
